@@ -5,7 +5,7 @@ set_option linter.unusedSimpArgs false
 set_option linter.unusedVariables false
 namespace Pox.Conn
 
--- `R` is the repaired code in either variant: `v = false` is /repo as it stands, `v = true` has C09-5 repaired as well
+-- `R` is the repaired code in either variant: `v = true` is /repo as it stands, `v = false` has the commit of C09-5 reverted
 variable {v : Bool}
 local notation "R" => Cfg.rv v
 
